@@ -199,6 +199,24 @@ class LibMixin:
             v = self.fresh_value(t, "sb")
             self.type_facts(st, v, t, param=False)
             return v
+        if callee.startswith("sync.(*Mutex).") or callee.startswith("sync.(*RWMutex)."):
+            self.models_used.add("sync.Mutex/RWMutex (mutual exclusion is not modelled: every shared read is arbitrary anyway)")
+            return TupleV([])
+        if callee.startswith("sync/atomic."):
+            m = callee.rsplit(".", 1)[1]
+            self.models_used.add("sync/atomic %s (a load returns an arbitrary value: other goroutines may store at any time)" % callee.replace("sync/atomic.", ""))
+            for a in args:
+                try:
+                    self.ev(a, st)
+                except Unsupported:
+                    pass
+            self.trace_event(st, "atomic." + m)
+            t = self.T(e) if "t" in e else None
+            if t is None or (t.under().k == "tuple" and not t.under().d.get("elems")):
+                return TupleV([])
+            v = self.fresh_value(t, "atomic")
+            self.type_facts(st, v, t, param=True)
+            return v
         if callee == "sync.(*Once).Do":
             self.models_used.add("sync.Once.Do (runs f iff the once has not fired, then marks it fired; at-most-once is trusted)")
             fun = e["Fun"]
